@@ -103,6 +103,17 @@ def dupNext : Option (α × Nat) → List (α × Nat) → Option (α × Option (
 termination_by st rest => (rest.length, if st.isSome then 1 else 0)
 decreasing_by all_goals simp_wf <;> first | omega | (simp [Prod.lex_def]; omega) | skip
 
+/-- Drive `DuplicateCounted::next` to exhaustion (`fuel` bounds the number of `next` calls). -/
+def dupAll : Nat → Option (α × Nat) → List (α × Nat) → List α
+  | 0, _, _ => []
+  | fuel + 1, st, rest =>
+    match dupNext st rest with
+    | none => []
+    | some (x, st', rest') => x :: dupAll fuel st' rest'
+
+/-- `IntoIterator::into_iter` collected. -/
+def intoIter (s : CSet α) : List α := dupAll (s.len + s.table.length + 1) none s.table
+
 end CSet
 
 /-! ## `VariadicColumnMultiset` -/
